@@ -366,7 +366,7 @@ func c19Gen(rt *rapid.T) c19Case {
 		TxRate:    rapid.SampledFrom(rates).Draw(rt, "tx"),
 		Sessions:  rapid.IntRange(1, 3).Draw(rt, "sessions"),
 		Conns:     rapid.IntRange(1, 4).Draw(rt, "conns"),
-		Streams:   rapid.IntRange(1, 4).Draw(rt, "streams"),
+		Streams:   rapid.OneOf(rapid.IntRange(1, 4), rapid.IntRange(1, 10)).Draw(rt, "streams"),
 		Unordered: rapid.Bool().Draw(rt, "unordered"),
 	}
 	maxRate := sc.RxRate
@@ -381,7 +381,7 @@ func c19Gen(rt *rapid.T) c19Case {
 		maxSec = 60
 	}
 	sc.Seconds = rapid.IntRange(5, maxSec).Draw(rt, "seconds")
-	nw := rapid.IntRange(1, 8).Draw(rt, "nwriters")
+	nw := rapid.OneOf(rapid.IntRange(1, 8), rapid.IntRange(8, 40)).Draw(rt, "nwriters")
 	if nw < sc.Sessions {
 		nw = sc.Sessions
 	}
